@@ -316,7 +316,8 @@ def setOptionTail (s : Store) (key : Key) (first : Bool) (id : Nat) (nv1 : Val) 
       assert key.sub.isSome
       modify (fun s => { s with augments := ainsert key nv s.augments })
       M.pure ((alookup key s.augments).getD o.value))
-  let changed := old != nv
+  -- `changed |= opt.yielding`: an option that stops yielding has changed even when its own value is the new one
+  let changed := old != nv || (ahas key s.options && o.yielding)
   if o.readonly && changed && !first then fail .meson
   else if key.name == sPrefix && first && changed then
     match old, nv with
@@ -597,15 +598,6 @@ def initSub (sub : Str) (spcall pdo cmd mf : Dict) : M Unit := do
 
 /-! ## `set_from_configure_command` (options.py:1110-1136) -/
 
-/-- `bool(opt.parent)`: `UserBooleanOption.__bool__` returns the *value*; every other class is truthy -/
-def parentTruthy (s : Store) (o : Obj) : Bool :=
-  match o.parent with
-  | none => false
-  | some pid =>
-    match s.heap[pid]? with
-    | some p => (match p.kind with | .boolean => p.value == .bool true | _ => true)
-    | none => false
-
 def configureOne (kv : Key × Option Val) : M Bool := do
   let (key, ov) := kv
   match ov with
@@ -621,7 +613,7 @@ def configureOne (kv : Key × Option Val) : M Bool := do
       | none => fail .key
       | some id => do
         let o ← getObj id
-        let pt := parentTruthy s o
+        let pt := o.parent.isSome          -- `opt.parent is not None`
         objSetYielding id pt
         M.pure (!o.yielding && pt)
 
@@ -630,7 +622,45 @@ def setFromConfigure : List (Key × Option Val) → Bool → M Bool
   | [], dirty => M.pure dirty
   | kv :: r, dirty => M.bind (configureOne kv) (fun d => setFromConfigure r (dirty || d))
 
-/-! ## `update_project_options` (options.py:1390-1417) -/
+/-! ## `update_project_options` (options.py) -/
+
+/-- `link_to_parent(key, valobj)` as the parent it assigns: a `yield: true` option of a subproject is linked to the
+top-level option of the same name when that has the same class (the same computation as in `addProjectOption`) -/
+def linkParent (s : Store) (k : Key) (o : Obj) : Option Nat :=
+  if o.yielding && k.subTruthy then
+    match alookup k.asRoot s.options with
+    | some pid =>
+      match s.heap[pid]? with
+      | some p => if p.kind.sameClass o.kind then some pid else o.parent
+      | none => o.parent
+    | none => o.parent
+  else o.parent
+
+/-- `for child in self.options.values(): if child.parent is oldval: …`: the options that yield to the replaced object
+`oid` yield to its replacement `nid`; a child of another class than the replacement stops yielding.  (The model
+maps over the whole heap; objects that are no longer under any key are unobservable.) -/
+def repointChildren (oid nid : Nat) : M Unit :=
+  modify (fun s =>
+    match s.heap[nid]? with
+    | none => s
+    | some n =>
+      { s with heap := s.heap.map (fun c =>
+          if c.parent == some oid then
+            (if n.kind.sameClass c.kind then { c with parent := some nid }
+             else { c with parent := none, yielding := false })
+          else c) })
+
+/-- the option object under `key` (`old`, id `oid`) is replaced by the freshly parsed `nobj`: linked to its parent
+like a new option, unless the user has set the old one for this subproject only (`value.yielding and
+oldval.yielding`); children re-pointed; changed choices keep the old value when still valid, an option of another
+type starts from its default -/
+def replaceObj (key : Key) (nobj old : Obj) (oid : Nat) (retyped : Bool) : M Unit := do
+  let s2 ← get
+  let nid ← alloc { nobj with parent := linkParent s2 key nobj,
+                              yielding := (linkParent s2 key nobj).isSome && (retyped || old.parent.isNone || old.yielding) }
+  modify (fun s => { s with options := ainsert key nid s.options })
+  repointChildren oid nid
+  if retyped then M.pure () else catchMeson (objSetValue nid old.value) (M.pure ())
 
 def updateOne (sub : Str) (kv : Key × Obj) : M Unit := do
   let (key, nobj) := kv
@@ -643,12 +673,8 @@ def updateOne (sub : Str) (kv : Key × Obj) : M Unit := do
     | none => fail .key
     | some oid => do
       let old ← getObj oid
-      if !(old.kind.sameClass nobj.kind) then do
-        let _ ← setOption key nobj.value false; M.pure ()
-      else if old.kind.choicesDiffer nobj.kind then do
-        let nid ← alloc nobj
-        modify (fun s => { s with options := ainsert key nid s.options })
-        catchMeson (objSetValue nid old.value) (M.pure ())
+      let retyped := !(old.kind.sameClass nobj.kind)
+      if retyped || old.kind.choicesDiffer nobj.kind then replaceObj key nobj old oid retyped
       else M.pure ()
 
 /-- `update_project_options(project_options, subproject)` -/
